@@ -235,6 +235,24 @@ pub fn run(ctx: &Ctx) -> Outcome {
                 if table.is_empty() {
                     rep.inconclusive.push(format!("hook H2 returned an empty linking-word table for {}", code));
                 }
+                // and the other way round: a word that is not an entry of the table (a filler, a number word, one word of a
+                // two-word entry such as pt `mais tarde`) must not be answered "linking"
+                {
+                    let lex = ls.lexicon(code);
+                    let mut probes: Vec<String> = lex.fillers.iter().chain(lex.number_words.iter()).chain(lex.ordinal_words.iter()).cloned().collect();
+                    for entry in table.iter().filter(|e| e.contains(' ')) {
+                        probes.extend(entry.split(' ').map(|p| p.to_string()));
+                    }
+                    for w in probes {
+                        if w.is_empty() || table.iter().any(|e| *e == w) {
+                            continue;
+                        }
+                        rep.eval(crate::rng::hash_bytes(&[b"not-in-linking-table", code.as_bytes(), w.as_bytes()]), true);
+                        if api.is_linking(&w) || facade.is_linking(&w) {
+                            rep.violation(&format!("{}:linking-table-reverse", code), jobj! {"kind" => "linking-table-reverse", "lang" => code, "word" => w.as_str()}, format!("[{}] {:?} is not an entry of the linking-word table of {} but is_linking answers true", code, w, code));
+                        }
+                    }
+                }
                 for word in table {
                     rep.eval(crate::rng::hash_bytes(&[b"linking-table", code.as_bytes(), word.as_bytes()]), true);
                     let mut fail: Option<String> = None;
@@ -319,13 +337,21 @@ pub fn run(ctx: &Ctx) -> Outcome {
     if !ctx.quick() {
         super::legs::fuzz_leg(ctx, &mut rep, 45);
     }
-    let rule = "table/lookup agreement: every word of each language's linking-word table (hook H2) is answered linking and does not break a sequence of two digits; cases = every stream of 1..4 (thorough 1..5) tokens over a 16-word alphabet per language (counter exhaustive_small_alphabet_streams) and grammar-noise token streams, each scanned at 9 base thresholds (0,1,3,5,10,25,inf,NaN,-1) plus value and value +/- 0.5 of its first numbers; universal laws on every stream: lazy and batch search agree at every threshold, F(t) subset of F(0) as exact tuples, monotonicity over all ordered threshold pairs, t<=0 or NaN rewrites everything, every non-small number is reported; policy model (a quarter of the streams in random case; words are classified by their lower-case form): a small number is reported iff a neighbour of the same kind is linked through a soft gap; gaps are soft (whitespace, hyphen, letter-free tokens other than a lone period, linking words, the conjunction) / hard (a lone period, a word that is not linking) / ambiguous (the separator word, a conjunction flagged not-a-number that the language does not list as linking: not judged); non-trivial = stream with at least one recognised number";
+    let rule = "table/lookup agreement: every word of each language's linking-word table (hook H2) is answered linking and does not break a sequence of two digits, and no filler, number word or part of a two-word entry that is not itself an entry is answered linking; cases = every stream of 1..4 (thorough 1..5) tokens over a 16-word alphabet per language (counter exhaustive_small_alphabet_streams) and grammar-noise token streams, each scanned at 9 base thresholds (0,1,3,5,10,25,inf,NaN,-1) plus value and value +/- 0.5 of its first numbers; universal laws on every stream: lazy and batch search agree at every threshold, F(t) subset of F(0) as exact tuples, monotonicity over all ordered threshold pairs, t<=0 or NaN rewrites everything, every non-small number is reported; policy model (a quarter of the streams in random case; words are classified by their lower-case form): a small number is reported iff a neighbour of the same kind is linked through a soft gap; gaps are soft (whitespace, hyphen, letter-free tokens other than a lone period, linking words, the conjunction) / hard (a lone period, a word that is not linking) / ambiguous (the separator word, a conjunction flagged not-a-number that the language does not list as linking: not judged); non-trivial = stream with at least one recognised number";
     finish(ctx, rep, rule, &["'is this a linking word / a separator word' is asked of the running library through the public trait methods", "gaps that contain the decimal-separator word are not judged (DESIGN.md C09); letter-free tokens other than a lone period are transparent, as the property's anchor states"], vec![])
 }
 
 pub fn replay(case: &J) -> Vec<String> {
     let ls = LangSet::new();
     let code = case.str_of("lang");
+    if case.str_of("kind") == "linking-table-reverse" {
+        let word = case.str_of("word");
+        let listed = text2num::verif_hooks::linking_vocabulary(&code).iter().any(|w| *w == word);
+        if !listed && ls.api(&code).is_linking(&word) {
+            return vec![format!("{:?} is not an entry of the linking-word table of {} but is_linking answers true", word, code)];
+        }
+        return vec![];
+    }
     if case.str_of("kind") == "linking-table" {
         let word = case.str_of("word");
         let api = ls.api(&code);
